@@ -122,6 +122,19 @@ def gen(tier, rng):
         calls += [sess.E("LIST"), "R5000", sess.E(direct), "R5000"]
         cases.append(Case(sess.session(calls), sig="\n".join(prog) + first + "\n#enter: " + "; ".join(entry) + "\n#then: " + direct, tag="faulty",
                           meta=("faulty", faults, nums)))
+    # the other direction: diagnostics belong to the line that caused them and to nothing else.  A direct line that fails to
+    # compile or link leaves no diagnostic behind: a correct program typed after it runs, and reports nothing
+    for hi in range(40 if tier == "quick" else 1500):
+        nums = sorted(rng.sample(range(10, 400, 10), rng.randint(2, 5)))
+        bad = rng.choice(['PRINT "far to the right" 1 2 3 )', "GOTO 999", "GOSUB 12345:PRINT 1", "WEND", "X=1+", "RESTORE 777", "IF 1 THEN RUN 5", "WHILE 1"])
+        prog = ['%d PRINT "#%d";' % (k, k) for k in nums]
+        first = rng.choice([[], [prog[0], "RUN"], [prog[0], 'PRINT "x";']])
+        calls = ["R5000"]
+        for l in first:
+            calls += [sess.E(l), "R5000"]
+        calls += [sess.E(bad), "R5000"] + [sess.E(l) for l in prog] + [sess.E('PRINT "@go";'), "R5000", sess.E("RUN"), "R5000", sess.E("LIST"), "R5000"]
+        cases.append(Case(sess.session(calls), sig="\n".join(prog) + "\n#typed after the failing direct line: " + bad + "\n#then: RUN", tag="healthy",
+                          meta=("healthy", [], nums)))
     # a correct program stops inside itself; a direct DELETE then removes a line other lines refer to (or the WEND of an open
     # WHILE), so the program now has a compile-time error; whatever is typed next to resume it -- CONT, RETURN, NEXT -- must
     # not run any of its code
@@ -148,6 +161,18 @@ def monitor(case, r):
         return None
     if "PANIC" in r.split("|") or "HANG" in r.split("|") or r in ("PANIC", "HANG", "CRASH"):
         return "crash: %s answers ...%s" % (case.sig, sess.decode_events(r)[-200:])
+    if case.meta[0] == "healthy":
+        ev = transcript.split_events(framework.default_canon(None, r))
+        text = transcript.printed_text(ev)
+        if "@go" not in text:
+            return "direct: a direct statement must work after a direct line that failed\n%s\n%s" % (case.sig, sess.decode_events(r)[-300:])
+        after = [e for e in ev[next(i for i, e in enumerate(ev) if e.startswith("P:") and sess.hx("@go") in e):]]
+        errs = [e for e in after if e.startswith("E:[")]
+        want = "".join("#%d" % k for k in case.meta[2])
+        if errs or want not in transcript.printed_text(after):
+            return "stray: a program without faults, typed after a direct line that failed, must run and report nothing; got %s\n%s" % (
+                sess.decode_events("|".join(after))[:300], case.sig)
+        return None
     if case.meta[0] == "became-faulty":
         text = transcript.printed_text(transcript.split_events(framework.default_canon(None, r)))
         if "@cut" not in text or "@ok" not in text:
@@ -202,4 +227,4 @@ def monitor(case, r):
 
 
 def nontrivial(case, r):
-    return (r is not None and case.meta[0] == "became-faulty") or r is not None and any(ord(ch) > 127 for ch in case.sig) or (r is not None and "ON Z" in case.sig)
+    return (r is not None and case.meta[0] in ("became-faulty", "healthy")) or r is not None and any(ord(ch) > 127 for ch in case.sig) or (r is not None and "ON Z" in case.sig)
